@@ -152,6 +152,10 @@ class MDCPDPEnv(RL4COEnvBase):
                 current_step_length,
             )
 
+        # Nothing is driven once the episode has finished (padding steps of finished instances)
+        was_done = td["done"].reshape(current_node.shape)
+        current_step_length = torch.where(was_done, 0.0, current_step_length)
+
         # Update the current length
         current_length.scatter_add_(-1, current_depot, current_step_length)
 
@@ -160,6 +164,20 @@ class MDCPDPEnv(RL4COEnvBase):
         arrivetime_record.scatter_(
             -1, current_node, current_length.gather(-1, current_depot)
         )
+
+        # Closed routes: the last vehicle drives home on the finishing step
+        if self.problem_mode == "close":
+            done_now = (torch.count_nonzero(available, dim=-1) == 0).unsqueeze(-1)
+            home = gather_by_index(td["locs"], current_depot)
+            current_length.scatter_add_(
+                -1,
+                current_depot,
+                torch.where(
+                    done_now & ~was_done,
+                    self.get_distance(curr_loc, home).unsqueeze(-1),
+                    0.0,
+                ),
+            )
 
         # Action is feasible if the node is not visited and is to deliver
         action_mask = available & to_deliver
